@@ -581,6 +581,26 @@ pub fn run_history(ctx: &mut MCTPSMBusContext, own: u8, dest: u8, seed: u64) {
     }
 }
 
+thread_local! {
+    /// EID the encoding half reported through its accessor right after the last `invoke_on(.., set_eids = true)`
+    static EFFECTIVE_EID_THIS: std::cell::Cell<Option<u8>> = const { std::cell::Cell::new(None) };
+}
+
+/// `expected(c)`, except that for a stored EID of 0x00 or 0xFF the expectation uses what the
+/// encoding half's accessor reported after the store. C13 quantifies accessor stores over EIDs
+/// 0x01-0xFE; whether the null / broadcast EID is adopted is free (benign/C13-k ignores 0xFF), and
+/// C07 speaks of "every EID value previously STORED in the context".
+pub fn expected_as_stored(c: &Call) -> Exp {
+    if c.eid_this == 0x00 || c.eid_this == 0xFF {
+        if let Some(rb) = EFFECTIVE_EID_THIS.with(|e| e.get()) {
+            let mut c2 = c.clone();
+            c2.eid_this = rb;
+            return expected(&c2);
+        }
+    }
+    expected(c)
+}
+
 /// Same, on an existing context (`set_eids`: store eid_this/eid_other first).
 pub fn invoke_on(ctx: &MCTPSMBusContext, c: &Call, buf: &mut [u8], set_eids: bool) -> Result<Result<usize, ()>, PanicSig> {
     let req = ctx.get_request();
@@ -596,6 +616,8 @@ pub fn invoke_on(ctx: &MCTPSMBusContext, c: &Call, buf: &mut [u8], set_eids: boo
             resp.set_eid(c.eid_other);
             req.set_eid(c.eid_this);
         }
+        let rb = if c.form.on_response_half() { resp.get_eid() } else { req.get_eid() };
+        EFFECTIVE_EID_THIS.with(|e| e.set(Some(rb)));
     }
     let d = c.dest;
     let p = c.p;
@@ -807,6 +829,10 @@ pub fn expected(c: &Call) -> Exp {
                     let ent = SMBusRoutingInformationUpdateEntry::new(route_type_variant(e[0]), e[1], e[2], e[3]);
                     let _ = ROUTE_TYPES;
                     body.extend_from_slice(&ent.0);
+                } else if e.len() == 4 {
+                    // same for the from-bytes builder (it may normalise reserved bits)
+                    let ent = SMBusRoutingInformationUpdateEntry::new_from_buf([e[0], e[1], e[2], e[3]]);
+                    body.extend_from_slice(&ent.0);
                 } else {
                     body.extend_from_slice(e);
                 }
@@ -857,6 +883,17 @@ pub fn expected(c: &Call) -> Exp {
         Form::GenControlReq | Form::GenControlResp => {
             kind = Kind::CtrlRaw;
             flags_exact = false;
+            // the raw control generator has no documented argument shape; what a control message
+            // IS is documented by DSP0236: a 2-byte header with the reserved bit clear (and not a
+            // datagram response), and a completion code after a response header. Anything else may
+            // be refused (C16 quantifies over "documented shapes"); if encoded, bytes are judged.
+            let canonical = match &c.hdr {
+                Some(h) if h.len() == 2 => h[0] & 0x20 == 0 && !(h[0] & 0x80 == 0 && h[0] & 0x40 != 0) && (h[0] & 0x80 != 0 || !c.blob.is_empty()),
+                _ => false,
+            };
+            if !canonical {
+                may_refuse = Some("raw control generator given something that is not a control message");
+            }
             if let Some(h) = &c.hdr {
                 body.extend_from_slice(h);
             }
